@@ -16,6 +16,11 @@ var boundsText = map[string]string{}
 var outsideText = map[string]string{}
 var extraAssumptions = map[string][]string{}
 
+// exhaustiveProp: the whole input space of the property's value domain lies
+// inside the bound (symbolic over every value of every field) -- reported as
+// coverage.exhaustive, only when the run decided every obligation.
+var exhaustiveProp = map[string]bool{}
+
 // loadBounds reads /verif/harness/bounds.json: per property the bounds the
 // harnesses enumerate, what lies outside them and the stubs/assumptions used.
 func loadBounds(verifDir string) {
@@ -27,6 +32,7 @@ func loadBounds(verifDir string) {
 		Bounds      map[string]string `json:"bounds"`
 		Outside     string            `json:"outside"`
 		Assumptions []string          `json:"assumptions"`
+		Exhaustive  bool              `json:"exhaustive"`
 	}
 	if err := json.Unmarshal(data, &b); err != nil {
 		fmt.Fprintln(os.Stderr, "harness/bounds.json:", err)
@@ -36,6 +42,7 @@ func loadBounds(verifDir string) {
 		boundsText[id] = "quick: " + e.Bounds["quick"] + " | thorough: " + e.Bounds["thorough"]
 		outsideText[id] = e.Outside
 		extraAssumptions[id] = e.Assumptions
+		exhaustiveProp[id] = e.Exhaustive
 	}
 }
 
